@@ -229,7 +229,17 @@ func c15RunScript(max int, ops []string, catches string, scale time.Duration) ([
 			endCalled++
 			ch = c15Async(func() string { p.End(); return "ok" })
 		case 'n':
-			ch = c15Async(func() string { return fmt.Sprintf("n%d", p.Count()) })
+			ch = c15Async(func() string {
+				if os.Getenv("VERIF_RACE") == "1" {
+					// Count() is unsynchronised by design (the client only calls it with collectLock held); under the
+					// race detector the observation takes the lock like the client does and is skipped while a Collect holds it
+					if !p.collectLock.TryLock() {
+						return "n?"
+					}
+					defer p.collectLock.Unlock()
+				}
+				return fmt.Sprintf("n%d", p.Count())
+			})
 		}
 		if o, ok := c15Wait(ch, deadline); ok {
 			outs[k] = o
